@@ -379,7 +379,8 @@ class TreeRun:
 
     def __init__(self, rng, p, ex, lexer, allow_bad, meta_mode, text=None, lexer_shared=False):
         self.rng, self.p, self.ex, self.lexer = rng, p, ex, lexer
-        self.lexer_shared = lexer_shared   # F22 present: only the root parser may call resume_parse()
+        self.lexer_shared = lexer_shared   # True: only the root parser may call resume_parse()
+        self.oracle = True                 # False: record only (shallow-copy runs, where the property does not hold)
         self.allow_bad = allow_bad
         self.mm = meta_mode           # how much of Tree.meta the oracle compares (0 none, 1 public, 2 all)
         self.forks = []
@@ -407,7 +408,7 @@ class TreeRun:
     def _check_others(self, before, touched, what):
         """every parser not touched by the operation, and every result already returned, is unchanged; no two
         parsers reach a common mutable object"""
-        if self.fail:
+        if self.fail or not self.oracle:
             return
         after = self._snap()
         for j, (b, a) in enumerate(zip(before, after)):
@@ -433,7 +434,7 @@ class TreeRun:
 
     def _choices_check(self, j):
         f = self.forks[j]
-        if self.fail or f.py is None:
+        if self.fail or f.py is None or not self.oracle:
             return
         if dict(f.py.choices()) != dict(self.ex.states[f.state.state_stack[-1]]):
             self.fail = ('choices', 'choices() of parser %d is not the table row of its top state' % j)
@@ -540,6 +541,9 @@ class TreeRun:
         elif how == 'copydeep':
             c, imm = f.py.copy(deepcopy_values=True), f.imm
             self.ops.append('(OCopy %d true)' % i)
+        elif how == 'shallow':
+            c, imm = f.py.copy(deepcopy_values=False), f.imm
+            self.ops.append('(OCopy %d false)' % i)
         elif how == 'imm':
             c, imm = f.py.as_immutable(), True
             self.ops.append('(OAsImm %d)' % i)
@@ -579,7 +583,7 @@ class TreeRun:
         order = [k for k in f.py.choices() if k in acc]
         self.obs.append('(EAcc %s)' % L([N(self.ex.term[k]) for k in order]))
         self._check_others(before, set(), 'accepts')
-        if self.fail:
+        if self.fail or not self.oracle:
             return
         # the property's own statement: t in accepts()  <=>  feeding a token of type t succeeds
         expect = set()
@@ -681,6 +685,32 @@ class TreeRun:
             if f.py is not None and not f.done and not (f.imm and len(self.forks) >= 16):
                 self.op_feed(i, '$END')
 
+    def run_shallow(self, max_ops):
+        """mutable parsers, shallow copies, feeds and accepts only; nothing is asserted (the model is compared)"""
+        rng = self.rng
+        self.oracle = False
+        for _ in range(max_ops):
+            if self.fail:
+                break
+            live = [i for i, f in enumerate(self.forks) if not f.done]
+            if not live:
+                break
+            i = rng.choice(live)
+            f = self.forks[i]
+            r = rng.random()
+            ok, _ = self._shiftable(f.state.state_stack)
+            if r < 0.25 and len(self.forks) < 5:
+                self.op_copy(i, 'shallow')
+            elif r < 0.85 and ok:
+                self.op_feed(i, rng.choice(ok)[0])
+            elif r < 0.93:
+                self.op_accepts(i)
+            elif self.ex.pyfeed(f.state.state_stack, 0)[1] == KRESULT:
+                self.op_feed(i, '$END')
+        for i, f in enumerate(list(self.forks)):
+            if not f.done and not self.fail and self.ex.pyfeed(f.state.state_stack, 0)[1] == KRESULT:
+                self.op_feed(i, '$END')
+
     def run_lexer_forks(self, max_ops):
         rng = self.rng
         n = len(self.text_tokens)
@@ -762,7 +792,9 @@ class TreeRun:
                                                L([to_ptree(self.ex, v) for v in f.state.value_stack])))
         return L(out)
 
-    def coq_case(self):
+    def coq_case(self, shared=False):
+        if shared:
+            return '(mk_icase ta tg tr %d %d tc %s %s %s)' % (self.ex.s0, self.ex.e0, L(self.ops), L(self.obs), self.finals())
         acts, gotos, rules, s0, e0, cbs = self.ex.coq_tables()
         return '(mk_icase %s %s %s %d %d %s %s %s %s)' % (acts, gotos, rules, s0, e0, cbs, L(self.ops), L(self.obs), self.finals())
 
@@ -893,9 +925,18 @@ class OnErrorRun:
         self.n_err = n_err
         self.ok = final_exc is None
 
-    def coq_case(self):
+    def coq_case(self, shared=False):
+        if shared:
+            return '(mk_icase ta tg tr %d %d tc %s %s %s)' % (self.ex.s0, self.ex.e0, L(self.ops), L(self.obs), L([self.final]))
         acts, gotos, rules, s0, e0, cbs = self.ex.coq_tables()
         return '(mk_icase %s %s %s %d %d %s %s %s %s)' % (acts, gotos, rules, s0, e0, cbs, L(self.ops), L(self.obs), L([self.final]))
+
+
+def coq_group(ex, runs):
+    """all cases of one grammar as one Coq term of type list icase; the tables are written once"""
+    acts, gotos, rules, s0, e0, cbs = ex.coq_tables()
+    return '(let ta := %s in let tg := %s in let tr := %s in let tc := %s in %s)' % (
+        acts, gotos, rules, cbs, L([r.coq_case(shared=True) for r in runs]))
 
 
 # ----------------------------------------------------------------------------------------- driver
@@ -932,21 +973,16 @@ def correspond(ctx):
             ctx.violation('regression:' + name, w, True, what)
     defect = False
     lexer_shared = False
-    ngram = ctx.scale(70, 700) * (3 if ctx.widen else 1)
-    cases, metas = [], []
-
-    def mm_for(pp):
-        return 0 if (defect and pp) else 2
-
-    def add(g, pp, mp, lexer, run, kind, stream):
-        cases.append(run.coq_case())
-        metas.append((g, pp, mp, lexer, kind, run))
+    ngram = ctx.scale(45, 600) * (3 if ctx.widen else 1)
+    groups = []      # (g, pp, mp, lexer, ex, [(kind, run)])
+    mm = 2
 
     for gi in range(ngram):
         allow_bad = rng.random() < 0.4
         g, pp, mp, lexer, p, ex = new_parser(rng, force_basic=allow_bad)
+        runs = []
         for _ in range(3):
-            tr = TreeRun(rng, p, ex, lexer, allow_bad, mm_for(pp))
+            tr = TreeRun(rng, p, ex, lexer, allow_bad, mm)
             tr.run_tree(rng.randint(8, 26))
             tr.final_oracle()
             ctx.count('fork-trees', key=(g, pp, mp, tuple(map(tuple, tr.script))), nontrivial=tr.nontrivial(),
@@ -955,12 +991,22 @@ def correspond(ctx):
             if tr.fail:
                 ctx.violation('fork-trees:' + tr.fail[0], witness(g, pp, mp, lexer, tr, 'tree'), True, tr.fail[1])
             else:
-                add(g, pp, mp, lexer, tr, 'tree', 'fork-trees')
+                runs.append(('tree', tr))
+        # forks that only exist under shallow copies: no property here, the model alone is compared (this is
+        # where the in-place list re-use of ChildFilterLALR becomes visible)
+        tr = TreeRun(rng, p, ex, lexer, False, mm)
+        tr.run_shallow(rng.randint(6, 16))
+        ctx.count('shallow-model', key=(g, pp, mp, tuple(map(tuple, tr.script))),
+                  nontrivial=('inplace' in tr.bits and 'fork' in tr.bits), shallow_inplace='inplace' in tr.bits)
+        if tr.fail:
+            ctx.violation('shallow-model:' + tr.fail[0], witness(g, pp, mp, lexer, tr, 'shallow'), False, tr.fail[1])
+        else:
+            runs.append(('shallow', tr))
         # lexer-driven forks finished by resume_parse()
         types = gen_sentence(rng, ex, 0.12 if lexer == 'basic' else 0.0)
         text, _ = sentence_text(rng, types)
         if types:
-            tr = TreeRun(rng, p, ex, lexer, False, mm_for(pp), text=text, lexer_shared=lexer_shared)
+            tr = TreeRun(rng, p, ex, lexer, False, mm, text=text)
             tr.run_lexer_forks(rng.randint(6, 18))
             tr.final_oracle()
             ctx.count('lexer-forks', key=(g, pp, mp, text, tuple(map(tuple, tr.script))),
@@ -968,7 +1014,7 @@ def correspond(ctx):
             if tr.fail:
                 ctx.violation('lexer-forks:' + tr.fail[0], witness(g, pp, mp, lexer, tr, 'lexer'), True, tr.fail[1])
             else:
-                add(g, pp, mp, lexer, tr, 'lexer', 'lexer-forks')
+                runs.append(('lexer', tr))
         # Lark.parse(on_error=skip)
         if lexer == 'basic':
             for _ in range(2):
@@ -976,28 +1022,36 @@ def correspond(ctx):
                 text, _ = sentence_text(rng, types)
                 if not types:
                     continue
-                oe = OnErrorRun(p, ex, text, mm_for(pp))
+                oe = OnErrorRun(p, ex, text, mm)
                 ctx.count('on-error', key=(g, pp, mp, text), nontrivial=(oe.n_err > 0 and oe.ok), skipped=min(oe.n_err, 4))
                 if oe.fail:
                     ctx.violation('on-error:' + oe.fail[0], {'kind': 'on_error', 'grammar': g, 'propagate_positions': pp,
                                                             'maybe_placeholders': mp, 'lexer': lexer, 'text': text,
-                                                            'meta_mode': mm_for(pp)}, True, oe.fail[1])
+                                                            'meta_mode': mm}, True, oe.fail[1])
                 else:
-                    add(g, pp, mp, lexer, oe, 'on_error', 'on-error')
-    if metas:
-        g, pp, mp, lexer, kind, run = metas[0]
-        ctx.sample({'grammar': g.split('\nA:')[0], 'propagate_positions': pp, 'lexer': lexer, 'script': getattr(run, 'script', None)})
-    bad, errs = ctx.coq_bad_indices('c13', IMPORTS, 'check_case', cases, chunk=40)
+                    runs.append(('on_error', oe))
+        if runs:
+            groups.append((g, pp, mp, lexer, ex, runs))
+    if groups:
+        g, pp, mp, lexer, ex, runs = groups[0]
+        ctx.sample({'grammar': g.split('\nA:')[0], 'propagate_positions': pp, 'lexer': lexer,
+                    'script': getattr(runs[0][1], 'script', None)})
+    check_group = '(fun l => forallb check_case l)'
+    bad, errs = ctx.coq_bad_indices('c13', IMPORTS, check_group, [coq_group(gr[4], [r for _, r in gr[5]]) for gr in groups], chunk=6)
+    ctx.coq_cases_checked += sum(len(gr[5]) for gr in groups) - len(groups)
     for e in errs:
         ctx.violation('correspondence:coq-eval', {'error': e}, False, e[:300])
-    for i in bad[:6]:
-        g, pp, mp, lexer, kind, run = metas[i]
+    for gi in bad[:5]:
+        g, pp, mp, lexer, ex, runs = groups[gi]
+        sub, errs2 = ctx.coq_bad_indices('c13_g%d' % gi, IMPORTS, 'check_case', [r.coq_case() for _, r in runs], chunk=50)
+        kinds = sorted({runs[i][0] for i in sub}) or ['?']
+        first = runs[sub[0]][1] if sub else runs[0][1]
         # search: more fork trees on the same grammar under the property's own oracle
         found = None
         p = build(g, pp, mp, lexer)
-        ex = Export(p)
-        for _ in range(60):
-            tr = TreeRun(rng, p, ex, lexer, lexer == 'basic', mm_for(pp))
+        ex2 = Export(p)
+        for _ in range(80):
+            tr = TreeRun(rng, p, ex2, lexer, lexer == 'basic', mm)
             tr.run_tree(rng.randint(8, 30))
             tr.final_oracle()
             if tr.fail:
@@ -1006,11 +1060,11 @@ def correspond(ctx):
         if found:
             ctx.violation('correspondence+oracle:' + found.fail[0], witness(g, pp, mp, lexer, found, 'tree'), True, found.fail[1])
         else:
-            ctx.violation('correspondence:Inter/IDriver.wrun vs lark InteractiveParser (%s)' % kind,
+            ctx.violation('correspondence:Inter/IDriver.wrun vs lark InteractiveParser (%s)' % ','.join(kinds),
                           {'no_longer_checks': 'model/implementation agreement on case', 'grammar': g,
                            'propagate_positions': pp, 'maybe_placeholders': mp, 'lexer': lexer,
-                           'script': getattr(run, 'script', None), 'text': getattr(run, 'text', None),
-                           'coq_case': cases[i][:4000]}, False,
+                           'script': getattr(first, 'script', None), 'text': getattr(first, 'text', None),
+                           'coq_case': first.coq_case()[:6000]}, False,
                           'model and implementation disagree on observations or final stacks; the property oracle holds on this grammar')
 
 
